@@ -104,7 +104,7 @@ theorem cL4_simplify (E : Env) (self : Ops) (s : St) :
   simp only [bind, M.bind, M.getFe_apply]
   cases hsimp : s.fe.simplified with
   | true =>
-    simp only [↓reduceIte, pure, M.pure, M.bind]
+    simp only [↓reduceIte, pure, M.pure]
     by_cases hF : (!s.fe.constraints.isEmpty && s.fe.constraints.any (·.isFalse)) = true
     · simp only [hF, ↓reduceIte, M.bind, M.modifyFe_apply, M.pure_apply', scSimpFe]
       rfl
@@ -114,14 +114,14 @@ theorem cL4_simplify (E : Env) (self : Ops) (s : St) :
     simp only [Bool.false_eq_true, ↓reduceIte, M.bind, M.modifyFe_apply, M.getFe_apply]
     by_cases hemp : s.fe.constraints.isEmpty = true
     · have hnil : s.fe.constraints = [] := by simpa using hemp
-      simp only [hemp, ↓reduceIte, pure, M.pure, M.bind, M.modifyFe_apply, M.getFe_apply, hnil, List.isEmpty_nil,
-        Bool.not_true, Bool.false_and, Bool.false_eq_true, scSimpFe, M.pure_apply']
+      simp only [↓reduceIte, pure, M.pure, M.bind, M.modifyFe_apply, hnil, List.isEmpty_nil,
+        Bool.not_true, Bool.false_and, Bool.false_eq_true, scSimpFe]
       all_goals rfl
     · simp only [hemp, Bool.false_eq_true, ↓reduceIte, M.bind, M.get_apply, M.modify_apply, pure, M.pure]
       by_cases hF : (!(E.simp s.fe.constraints s.tick).isEmpty && (E.simp s.fe.constraints s.tick).any (·.isFalse)) = true
-      · simp only [hF, ↓reduceIte, M.bind, M.modifyFe_apply, M.getFe_apply, M.pure_apply', scSimpFe]
+      · simp only [hF, ↓reduceIte, M.bind, M.modifyFe_apply, M.pure_apply', scSimpFe]
         all_goals rfl
-      · simp only [hF, Bool.false_eq_true, ↓reduceIte, M.bind, M.modifyFe_apply, M.getFe_apply, M.pure_apply', scSimpFe]
+      · simp only [hF, Bool.false_eq_true, ↓reduceIte, M.bind, M.modifyFe_apply, M.pure_apply', scSimpFe]
         all_goals rfl
 
 end Claripy.Solver
